@@ -27,6 +27,8 @@ for n in range(4):
 TYPES.append(_t(64, "slice", 50))
 TYPES.append(_t(65, "slice", 51))
 TYPES.append(_t(70, "other"))
+TYPES.append(_t(80, "other"))        # [2]*T0
+TYPES.append(_t(81, "other"))        # Huge = [1<<61]struct{}
 
 BY_ID = {t["id"]: t for t in TYPES}
 
